@@ -34,6 +34,7 @@ def main():
         if r.returncode != 0:
             # the patch was written against an earlier HEAD (before later fix: commits): allow fuzz
             sh(["git", "-C", REPO, "checkout", "--", "."])
+            sh(["git", "-C", REPO, "clean", "-fdq", "--", "src", "py", "tests"])
             r = sh(["patch", "-p1", "-s", "-F3", "--no-backup-if-mismatch", "-d", REPO, "-i", os.path.join(d, "patch.diff")])
         if r.returncode != 0:
             print(sid, "patch does not apply:", r.stdout[-300:])
@@ -54,6 +55,7 @@ def main():
             results[sid] = entry
         finally:
             sh(["git", "-C", REPO, "checkout", "--", "."])
+            sh(["git", "-C", REPO, "clean", "-fdq", "--", "src", "py", "tests"])
         json.dump(results, open(respath, "w"), indent=1, sort_keys=True)
     return 0
 
